@@ -195,7 +195,10 @@ func vh_C17_L6_wfq_fairness_bound() {
 	w1, w2 := uint16(1+vPick(3)), uint16(1+vPick(3))
 	q := newWeightedFairQueueingPendingQueuePolicy(map[uint16]uint16{1: w1, 2: w2})
 	const maxLen = 2
-	n := 4
+	n := 3
+	if vtier() > 0 {
+		n = 4
+	}
 	// an earlier busy period: one of the streams has sent 0..3 chunks alone and the scheduler
 	// has drained completely since (what a stream sent before an idle period gives it neither
 	// credit nor debt afterwards)
@@ -210,6 +213,19 @@ func vh_C17_L6_wfq_fairness_bound() {
 	for i := 0; i < hist; i++ {
 		sel := q.Peek()
 		vassert(sel != nil && q.Pop(sel.chunkPayloadData()) == nil, "the earlier busy period drains")
+	}
+	// ... and then the other stream may have had a busy period of its own while the first was
+	// idle (the virtual clock moved on without it)
+	hist2 := 0
+	if hist > 0 {
+		hist2 = vPick(3)
+	}
+	for i := 0; i < hist2; i++ {
+		q.Push(vFrag(3-histStream, uint16(200+i), 0, 1, false, maxLen))
+	}
+	for i := 0; i < hist2; i++ {
+		sel := q.Peek()
+		vassert(sel != nil && q.Pop(sel.chunkPayloadData()) == nil, "the second busy period drains")
 	}
 	vassert(q.Peek() == nil, "the scheduler is idle")
 	var pushed [2]int
@@ -477,3 +493,8 @@ func vh_C17_L1_framing_follows_init_ack() { vh_C04_L6_agreement_follows_init_ack
 func vh_C17_L1_extensions_found_behind_unknown_parameters() {
 	vh_C12_L4_init_unknown_parameter_is_skipped()
 }
+
+// C17.L1g: both sides start as clients; whichever packets are lost (also every INIT ACK in one
+// direction, so that one side is established by the COOKIE ECHO alone) both end up with the
+// framing both enabled (= C04.L1b).
+func vh_C17_L1_simultaneous_open_agrees_on_framing() { vh_C04_L1_simultaneous_open() }
